@@ -8,6 +8,7 @@ The *logic* of PairingCheck (skip identities, one final exponentiation) is state
 abstract pairing in `pairingCheckAbs` and proved in Props.
 -/
 import DosModel.Model.Bn256Curve
+import DosModel.Model.Bn256TFrob
 
 namespace Dos.Bn256
 open Gen.Bn256 (Leaf)
@@ -42,33 +43,23 @@ def twistGen : G2J := ⟨fp2OfLeaves Gen.Bn256.twistGen 0, fp2OfLeaves Gen.Bn256
 def gfP12Gen : F12 := fp12OfLeaves Gen.Bn256.gfP12Gen
 def gfP12Inf : F12 := fp12OfLeaves Gen.Bn256.gfP12Inf
 
-/-! ### Frobenius maps (gfp6.go, gfp12.go) -/
-def Fp6.frobenius (a : F6) : F6 :=
-  let ex := a.x.conjugate
-  let ey := a.y.conjugate
-  let ez := a.z.conjugate
-  ⟨ex.mul xiTo2PMinus2Over3, ey.mul xiToPMinus1Over3, ez⟩
+/-! ### Frobenius maps (gfp6.go, gfp12.go): the generic transcriptions of Model/Bn256TFrob.lean at the
+regenerated constants -/
 
-def Fp6.frobeniusP2 (a : F6) : F6 :=
-  ⟨a.x.mulScalar xiTo2PSquaredMinus2Over3, a.y.mulScalar xiToPSquaredMinus1Over3, a.z⟩
+/-- the seven constants of constants.go -/
+def frobConsts : FrobConsts GFp :=
+  { xiToPMinus1Over6 := xiToPMinus1Over6, xiToPMinus1Over3 := xiToPMinus1Over3,
+    xiToPMinus1Over2 := xiToPMinus1Over2, xiTo2PMinus2Over3 := xiTo2PMinus2Over3,
+    xiToPSquaredMinus1Over3 := xiToPSquaredMinus1Over3,
+    xiTo2PSquaredMinus2Over3 := xiTo2PSquaredMinus2Over3,
+    xiToPSquaredMinus1Over6 := xiToPSquaredMinus1Over6 }
 
-def Fp6.frobeniusP4 (a : F6) : F6 :=
-  ⟨a.x.mulScalar xiToPSquaredMinus1Over3, a.y.mulScalar xiTo2PSquaredMinus2Over3, a.z⟩
-
-def Fp12.frobenius (a : F12) : F12 :=
-  let ex := Fp6.frobenius a.x
-  let ey := Fp6.frobenius a.y
-  ⟨ex.mulScalar xiToPMinus1Over6, ey⟩
-
-def Fp12.frobeniusP2 (a : F12) : F12 :=
-  let ex := Fp6.frobeniusP2 a.x
-  let ex := ex.mulGFP xiToPSquaredMinus1Over6
-  ⟨ex, Fp6.frobeniusP2 a.y⟩
-
-def Fp12.frobeniusP4 (a : F12) : F12 :=
-  let ex := Fp6.frobeniusP4 a.x
-  let ex := ex.mulGFP xiToPSquaredMinus1Over3
-  ⟨ex, Fp6.frobeniusP4 a.y⟩
+def Fp6.frobenius (a : F6) : F6 := Fp6.frobeniusG frobConsts a
+def Fp6.frobeniusP2 (a : F6) : F6 := Fp6.frobeniusP2G frobConsts a
+def Fp6.frobeniusP4 (a : F6) : F6 := Fp6.frobeniusP4G frobConsts a
+def Fp12.frobenius (a : F12) : F12 := Fp12.frobeniusG frobConsts a
+def Fp12.frobeniusP2 (a : F12) : F12 := Fp12.frobeniusP2G frobConsts a
+def Fp12.frobeniusP4 (a : F12) : F12 := Fp12.frobeniusP4G frobConsts a
 
 /-! ### line functions and Miller loop (optate.go) -/
 
@@ -195,39 +186,8 @@ def miller (q : G2J) (p : G1J) : F12 :=
 
 def uParam : Nat := Gen.Bn256.u
 
-def finalExponentiation (inp : F12) : F12 :=
-  let t1 : F12 := ⟨inp.x.neg, inp.y⟩
-  let inv := inp.invert
-  let t1 := t1.mul inv
-  let t2 := Fp12.frobeniusP2 t1
-  let t1 := t1.mul t2
-  let fp := Fp12.frobenius t1
-  let fp2 := Fp12.frobeniusP2 t1
-  let fp3 := Fp12.frobenius fp2
-  let fu := t1.exp uParam
-  let fu2 := fu.exp uParam
-  let fu3 := fu2.exp uParam
-  let y3 := Fp12.frobenius fu
-  let fu2p := Fp12.frobenius fu2
-  let fu3p := Fp12.frobenius fu3
-  let y2 := Fp12.frobeniusP2 fu2
-  let y0 := (fp.mul fp2).mul fp3
-  let y1 := t1.conjugate
-  let y5 := fu2.conjugate
-  let y3 := y3.conjugate
-  let y4 := fu.mul fu2p
-  let y4 := y4.conjugate
-  let y6 := fu3.mul fu3p
-  let y6 := y6.conjugate
-  let t0 := y6.square
-  let t0 := (t0.mul y4).mul y5
-  let t1 := (y3.mul y5).mul t0
-  let t0 := t0.mul y2
-  let t1 := ((t1.square).mul t0).square
-  let t0 := t1.mul y1
-  let t1 := t1.mul y0
-  let t0 := (t0.square).mul t1
-  t0
+/-- finalExponentiation (optate.go): the generic transcription at the regenerated constants and `u` -/
+def finalExponentiation (inp : F12) : F12 := finalExponentiationG frobConsts uParam inp
 
 def optimalAte (a : G2J) (b : G1J) : F12 :=
   let e := miller a b
